@@ -18,6 +18,18 @@ they are called, iterated collections decomposed into their elements), not on on
   R5 selection       cargo-libcnb passes the node at the current dir or all nodes at the workspace root;
                      libcnb-test passes the node with the requested id; both propagate the error; packaging
                      iterates the returned order front to back
+  R6 graph input     the graph handed to create_dependency_graph is complete (buildpack_dependency_graph.rs), stated on
+                     the Build normal form of a collection (C13_helpers: a collected iterator pipeline and a Vec pushed to
+                     in a loop are the same thing: base collection, element added, per-element conditions, truncation):
+                       dependencies-total  the node's dependency ids are F(d) for *every* element d of the package
+                                           descriptor's `dependencies` (no positional truncation, no early stop), dropped
+                                           only where F(d) is Ok(None), in order; F's error fails every public caller
+                       node-dependencies   the node's `dependencies` is that vector for <dir>/package.toml, empty only
+                                           under "is_file(<dir>/package.toml) is false"; node-id: `buildpack_id` is the id
+                                           read from <dir>/buildpack.toml
+                       trait-impl          DependencyNode::dependencies / id return those two fields
+                       nodes-total         every directory of find_buildpack_dirs whose kind is LibCnbRs | Composite
+                                           becomes a node handed to create_dependency_graph; node errors propagate
 Not decided: topological correctness on all DAGs (follows from R1–R3 given petgraph's documented post-order
 semantics); behaviour on cyclic input.
 """
@@ -330,6 +342,7 @@ def run(ctx, rep):
                     if any(y[0] == 'call' and y[1] == GD for y in walk(a0)):
                         bad.append(x.name)
         rep.check(not bad, 'R5', subj + '/consumption', c.where(), 'build order consumed front to back', 'build order is reordered before use: %s' % bad)
+    rule6(ctx, rep)
 
 
 def node_found_by(sl, v, graph):
@@ -398,3 +411,336 @@ def selection_by_cwd(prog, sl, f, c, graph):
             elif x[0] == 'call' and x[1] in H.VEC_NEW and not H.vec_uses(prog, sl, f, site_of(x))[0] and not H.vec_uses(prog, sl, f, site_of(x))[2]:
                 none += 1
     return sel == 1, allw == 1 and none == 1, len(cases), txt
+
+
+# ====================================================================================================================
+# R6 — the graph's input is complete
+# ====================================================================================================================
+NODE = 'libcnb_package::buildpack_dependency_graph::BuildpackDependencyGraphNode'
+F_DEP = 'libcnb_package::package_descriptor::buildpack_id_from_libcnb_dependency'
+KIND = 'libcnb_package::buildpack_kind::determine_buildpack_kind'
+DIRS = 'libcnb_package::find_buildpack_dirs'
+READ = 'libcnb_common::toml_file::read_toml_file'
+BG = 'libcnb_package::buildpack_dependency_graph::build_libcnb_buildpacks_dependency_graph'
+JOIN = 'std::path::Path::join'
+IS_FILE = 'std::path::Path::is_file'
+GRAPH_KINDS = frozenset(('LibCnbRs', 'Composite'))
+SWALLOWING = ('::ok', '::unwrap_or', '::unwrap_or_default', '::unwrap_or_else', '::is_ok', '::or', '::err', '::flatten', '::map_or', '::is_ok_and')
+
+
+def result_of(v, name):
+    """v is the result of a call to `name`, or a payload of it — seen through `?` / unwrap / transpose / map_err / branch:
+    (the call value, number of payload levels taken), else None"""
+    n = 0
+    for _ in range(12):
+        if v[0] == 'unwrap':
+            v, n = v[1], n + 1
+        elif v[0] == 'updated':
+            v = v[1]
+        elif v[0] == 'call' and v[2] and (v[1] in H.OK_PRESERVING or v[1].endswith('::transpose') or v[1] == H.TRY_BRANCH):
+            v = v[2][0]
+        else:
+            break
+    return (v, n) if v[0] == 'call' and v[1] == name and v[2] else None
+
+
+def mentions(prog, k, name):
+    """the condition involves a call to `name` (in its value, or in the body of the predicate it comes from)"""
+    for v in (k.value, k.subject):
+        if v is not None and any(y[0] == 'call' and y[1] == name for y in walk(v)):
+            return True
+    g = prog.fns.get(k.origin) if isinstance(k.origin, str) else None
+    return g is not None and any(name in c.names() for h in prog.reach([g], stop=lambda f: f.vis == 'pub').values() for c in h.calls if not c.indirect)
+
+
+def of_elem(fr, b):
+    """the call found by result_of is applied to the Build's own element"""
+    return fr is not None and canon(peel_refs(fr[0][2][0])) == canon(b.x)
+
+
+def call_of(prog, v):
+    st = site_of(v)
+    return prog.fns[st[0]].call_at(st[1]) if st is not None and st[0] in prog.fns else None
+
+
+def errors_fail(prog, sl, call, what, problems):
+    """the failure of `call` fails every public entry point (else a problem is recorded)"""
+    if call is None:
+        problems.append(('unproven', 'no call site for %s: its failure cannot be followed' % what))
+        return
+    ok, why, at = H.success_implies(prog, call, sl)
+    if ok:
+        return
+    swallowed = at is not None and verdict(result_fates(prog, at.fn, at)) == 'discarded'
+    problems.append(('violated' if swallowed else 'unproven', 'an error of %s does not fail the caller: %s' % (what, why)))
+
+
+def sink_short_circuits(b, what, problems):
+    """pipeline form: the elements are Results, the collecting call must stop at the first Err"""
+    if b.sink is None:
+        problems.append(('unproven', 'the call that collects the %s is not known' % what))
+        return False
+    if not (b.sink.dty or '').startswith('std::result::Result<'):
+        problems.append(('violated', 'the %s are not collected into a Result: an error does not fail the collection' % what))
+        return False
+    return True
+
+
+def dependencies_total(prog, sl, b):
+    """Build b is `F(d)` for every element d of <X>.dependencies, dropped only where F(d) is Ok(None): (X, problems)"""
+    problems = list(b.problems)
+    coll = core(b.coll)
+    X = None
+    if coll[0] == 'field' and coll[2] == 'dependencies':
+        X = coll[1]
+    else:
+        problems.append(('unproven', 'the iterated collection is not the `dependencies` of a package descriptor: ' + vstr(coll)[:120]))
+    fr = result_of(b.elem, F_DEP)
+    want = 1 if b.form == 'pipeline' else 2
+    if not of_elem(fr, b):
+        problems.append(('unproven', 'the value added per element is not the id F yields for that element: ' + vstr(b.elem)[:160]))
+    elif fr[1] != want:
+        problems.append(('unproven', 'the value added per element takes %d payload level(s) of F\'s result, expected %d' % (fr[1], want)))
+    some = False
+    for k in b.conds:
+        if k.kind == 'variant':
+            kr = result_of(k.subject, F_DEP)
+            if not of_elem(kr, b):
+                problems.append(('unproven' if mentions(prog, k, F_DEP) else 'violated', 'elements are dropped by a condition that is not F\'s own result: %r' % k))
+            elif k.enum == 'std::option::Option' and k.outcome == frozenset(['Some']) and kr[1] == 1:
+                some = True
+            elif kr[1] == 0 and ((k.enum == 'std::ops::ControlFlow' and k.outcome == frozenset(['Continue'])) or (k.enum == 'std::result::Result' and k.outcome == frozenset(['Ok']))):
+                pass    # F succeeded; what happens otherwise is decided by errors_fail
+            else:
+                problems.append(('violated', 'elements are dropped on a test of F\'s result other than "is Ok(None)": %r' % k))
+        elif k.kind == 'some':
+            r = peel(k.value)
+            kr = result_of(r, F_DEP)
+            if k.origin and k.origin.endswith('map_while'):
+                continue    # (already a truncation problem)
+            if is_call(r, '::transpose') and of_elem(kr, b) and kr[1] == 0:
+                some = True
+            elif any(y[0] == 'call' and y[1] == F_DEP for y in walk(r)) and any(is_call(y, *SWALLOWING) for y in walk(r)):
+                problems.append(('violated', 'F\'s error is swallowed: the element is dropped when F fails (%s)' % vstr(r)[:120]))
+            else:
+                problems.append(('unproven', 'filter_map result is not F(element).transpose(): ' + vstr(r)[:120]))
+        else:
+            problems.append(('unproven' if mentions(prog, k, F_DEP) else 'violated', 'elements are dropped by a test other than F\'s own result: %r' % k))
+    if not some and not any(s == 'violated' for s, _ in problems):
+        problems.append(('unproven', 'no "F(element) is Some" condition found although the added value is the Some payload'))
+    if of_elem(fr, b):
+        if b.form == 'pipeline':
+            if sink_short_circuits(b, 'results of F', problems):
+                errors_fail(prog, sl, b.sink, 'F (collected results)', problems)
+        else:
+            errors_fail(prog, sl, call_of(prog, fr[0]), 'F', problems)
+    return X, problems
+
+
+BPID = 'libcnb_data::buildpack::BuildpackId'
+
+
+def untouched(prog, sl, fns, elem_type, sites, allowed, what, problems, other='unproven'):
+    """nothing but the recognised appends modifies the collection (or any vector of its type) in the functions involved"""
+    for sev, c in H.modifications(prog, sl, fns, (elem_type,), sites, [a for a in allowed if a is not None]):
+        if sev == 'violated':
+            problems.append(('violated', 'the %s is modified after it was built: %s at %s' % (what, (c.name or '?').split('::')[-1], c.where())))
+        else:
+            problems.append((other, 'a vector of the same type as the %s is modified by %s at %s' % (what, (c.name or '?').split('::')[-1], c.where())))
+
+
+def conclude(rep, subject, where, problems, ok_msg):
+    bad = [t for s, t in problems if s == 'violated']
+    unp = [t for s, t in problems if s != 'violated']
+    if bad:
+        rep.violated('R6', subject, where, '; '.join(bad)[:600])
+    elif unp:
+        rep.unproven('R6', subject, where, '; '.join(unp)[:600])
+    else:
+        rep.holds('R6', subject, where, ok_msg)
+
+
+def is_path_in(v, dirv, leaf):
+    """v denotes <dirv>/<leaf>"""
+    v = core(v)
+    return v[0] == 'call' and v[1] == JOIN and len(v[2]) == 2 and canon(peel(v[2][0])) == canon(dirv) and peel(v[2][1]) == ('const', leaf)
+
+
+def read_from(v, dirv, leaf):
+    """v is the success payload of read_toml_file(<dirv>/<leaf>)"""
+    c = core(v)
+    return c[0] == 'call' and c[1] == READ and len(c[2]) == 1 and is_path_in(c[2][0], dirv, leaf) and v[0] == 'unwrap'
+
+
+def rule6(ctx, rep):
+    prog, sl = ctx.prog, ctx.slicer
+    rep.rule('R6', 'the graph input is complete: all libcnb dependencies of all LibCnbRs / Composite buildpack directories')
+    keep = H.opaque_names(prog, (F_DEP, KIND, DIRS, READ, CG, BG))
+    E = Effects(prog, sl, vocab={CG: ('CREATE', 0)})
+    P = H.Payloads(prog, sl, keep)
+    w = lambda f: '%s:%d' % (f.file, f.line)
+    # ---- trait-impl -------------------------------------------------------------------------------------------------
+    for meth, field in (('dependencies', 'dependencies'), ('id', 'buildpack_id')):
+        fs = prog.find(r'^<%s as libcnb_package::dependency_graph::DependencyNode<.*>>::%s$' % (re.escape(NODE), meth))
+        if len(fs) != 1:
+            rep.unproven('R6', 'trait-impl/' + meth, '-', '%d implementations of DependencyNode::%s for the graph node' % (len(fs), meth))
+            continue
+        f = fs[0]
+        rep.analysed(f)
+        v = H.reduce(sl, sl.local(f, 0), keep)
+        if meth == 'dependencies':
+            v = sl.mk_unwrap(v, 1)
+        me = ('param', f.path, 0)
+        direct = lambda x: peel(x)[0] == 'field' and peel(x)[2] == field and peel(peel(x)[1])[:3] == me
+        ok = direct(v)
+        if not ok and peel(v)[0] == 'call':
+            al = iters.alts(sl, v)
+            ok = len(al) == 1 and al[0][1] is not None and not al[0][2] and direct(al[0][1]) and canon(peel(al[0][0])) == canon(iters.elem_of(al[0][1])) and H.in_order(peel(v))
+        probs = [] if ok else [('violated', 'DependencyNode::%s does not return the node\'s `%s` field: %s' % (meth, field, vstr(v)[:160]))]
+        untouched(prog, sl, [f], BPID, set(), [], 'returned list', probs, 'violated')
+        conclude(rep, 'trait-impl/' + meth, w(f), probs, 'DependencyNode::%s returns the node\'s `%s`' % (meth, field))
+    # ---- the node constructor --------------------------------------------------------------------------------------
+    ctors = []
+    for g in prog.fns.values():
+        if g.crate != 'libcnb_package':
+            continue
+        for bi, blk in enumerate(g.blocks):
+            for s in blk['s']:
+                if s[0] == '=' and s[2]['r'] == 'agg' and s[2].get('adt') == NODE:
+                    ctors.append((g, bi, s[2]))
+    builders = []
+    if not ctors:
+        rep.unproven('R6', 'node-dependencies', '-', 'no construction of BuildpackDependencyGraphNode found')
+    for n, (g, bi, rv) in enumerate(ctors):
+        sfx = '' if len(ctors) == 1 else '#%d' % n
+        rep.analysed(g)
+        ops = dict(zip(rv.get('fields') or (), rv.get('ops') or ()))
+        if g.kind == 'Closure' or g.argc != 1 or 'dependencies' not in ops or 'buildpack_id' not in ops:
+            rep.unproven('R6', 'node-dependencies' + sfx, w(g), 'the node is built in %s, not in a function of the buildpack directory' % g.path)
+            continue
+        builders.append(g)
+        dirv = ('param', g.path, 0, g.local_name(1))
+        # buildpack_id
+        alts = P.of_operand(g, ops['buildpack_id'])
+        probs = []
+        for a in alts:
+            v = core(H.reduce(sl, a.value, keep))
+            okv = v[0] == 'field' and v[2] == 'id' and core(v[1])[0] == 'call' and re.search(r'BuildpackDescriptor(::)?(<.*>)?::buildpack$', core(v[1])[1] or '') \
+                and len(core(v[1])[2]) == 1 and read_from(peel_refs(core(v[1])[2][0]), dirv, 'buildpack.toml')
+            if not okv:
+                probs.append(('violated' if not any(y[0] == 'call' and y[1] == READ for y in walk(v)) else 'unproven',
+                              '`buildpack_id` is not the id of the descriptor read from <dir>/buildpack.toml: ' + vstr(v)[:160]))
+        if not alts:
+            probs.append(('unproven', 'no value for `buildpack_id`'))
+        conclude(rep, 'node-id' + sfx, w(g), probs, 'buildpack_id = id read from <dir>/buildpack.toml')
+        # dependencies
+        alts = P.of_operand(g, ops['dependencies'])
+        nprobs, dprobs, built = [], [], 0
+        sites, pushes = set(P.sites), []
+        for a in alts:
+            b = H.build_of(prog, sl, E, a, keep)
+            sites |= b.sites
+            pushes.append(b.push)
+            if b.kind == 'empty':
+                absent = [gv for oc, gv in a.guards if oc is False and core(gv)[0] == 'call' and core(gv)[1] == IS_FILE and core(gv)[2] and is_path_in(core(gv)[2][0], dirv, 'package.toml')]
+                if not absent:
+                    nprobs.append(('violated', 'the node gets an empty dependency list on a path that is not guarded by "<dir>/package.toml is not a file" (decisions: %s)'
+                                   % (', '.join('%s %s' % (oc, vstr(gv)[:60]) for oc, gv in a.guards) or 'none')))
+            elif b.kind == 'built':
+                built += 1
+                X, ps = dependencies_total(prog, sl, b)
+                dprobs.extend(ps)
+                if X is not None and not read_from(peel_refs(X), dirv, 'package.toml'):
+                    nprobs.append(('unproven', 'the dependencies are not those of the descriptor read from <dir>/package.toml: ' + vstr(X)[:160]))
+                if b.frame is not None:
+                    rep.analysed(b.frame)
+            else:
+                nprobs.extend(b.problems or [('unproven', 'unrecognised value for `dependencies`')])
+        if not built and not nprobs:
+            nprobs.append(('violated', 'the node\'s dependency list is never computed from package.toml'))
+        untouched(prog, sl, [g], BPID, sites, pushes, 'dependency list', nprobs)
+        untouched(prog, sl, [h for h in P.frames.values() if h is not g], BPID, sites, pushes, 'dependency list', dprobs if built else nprobs)
+        conclude(rep, 'node-dependencies' + sfx, w(g), nprobs, 'dependencies = libcnb dependency ids of <dir>/package.toml; empty only when that file does not exist')
+        if built:
+            conclude(rep, 'dependencies-total' + sfx, w(g), dprobs, 'every dependency of the package descriptor is handed to buildpack_id_from_libcnb_dependency; only Ok(None) is dropped; errors propagate')
+        else:
+            rep.unproven('R6', 'dependencies-total' + sfx, w(g), 'no computed dependency list to decide')
+    # ---- nodes-total -------------------------------------------------------------------------------------------------
+    bg = prog.fn(BG)
+    rep.analysed(bg)
+    keep = keep | frozenset(nb.path for nb in builders)     # the node constructor is one entity here
+    P = H.Payloads(prog, sl, keep)
+    seen, creates = set(), []
+    for e in E.expand(bg, 'may'):
+        if e.kind == 'CREATE' and e.call is not None and e.args and (e.call.fn.path, e.call.bb) not in seen:
+            seen.add((e.call.fn.path, e.call.bb))
+            creates.append(e)
+    if not creates:
+        rep.unproven('R6', 'nodes-total', w(bg), 'create_dependency_graph is not reached from build_libcnb_buildpacks_dependency_graph')
+    for n, e in enumerate(creates):
+        sfx = '' if len(creates) == 1 else '#%d' % n
+        probs = []
+        alts = P.of_value(bg, e.args[0], {}, ())
+        sites, pushes = set(P.sites), []
+        for a in alts:
+            if a.guards:
+                probs.append(('unproven', 'the node list depends on decisions: %s' % ', '.join('%s %s' % (oc, vstr(gv)[:60]) for oc, gv in a.guards)))
+            b = H.build_of(prog, sl, E, a, keep)
+            sites |= b.sites
+            pushes.append(b.push)
+            if b.kind == 'empty':
+                probs.append(('violated', 'create_dependency_graph receives an empty node list'))
+                continue
+            if b.kind != 'built':
+                probs.extend(b.problems or [('unproven', 'unrecognised node list')])
+                continue
+            probs.extend(b.problems)
+            coll = core(b.coll)
+            if not (coll[0] == 'call' and coll[1] == DIRS and coll[2] and peel(coll[2][0])[:3] == ('param', bg.path, 0)):
+                probs.append(('unproven', 'the iterated collection is not find_buildpack_dirs(<workspace root>): ' + vstr(coll)[:120]))
+            fr = None
+            for nb in builders:
+                fr = fr or result_of(b.elem, nb.path)
+            want = 0 if b.form == 'pipeline' else 1
+            if not of_elem(fr, b) or fr[1] != want:
+                probs.append(('unproven', 'the value added per directory is not the node built for that directory: ' + vstr(b.elem)[:160]))
+                fr = None
+            kinds = None
+            for k in b.conds:
+                kr = result_of(k.subject, KIND) if k.kind == 'variant' else None
+                nr = result_of(k.subject, fr[0][1]) if (k.kind == 'variant' and fr is not None) else None
+                if of_elem(kr, b) and k.enum == 'std::option::Option' and k.outcome == frozenset(['Some']) and kr[1] == 0:
+                    pass
+                elif of_elem(kr, b) and kr[1] == 1 and (k.enum or '').endswith('BuildpackKind'):
+                    kinds = k.outcome if kinds is None else (kinds & k.outcome)
+                    if not k.total:
+                        probs.append(('unproven', 'the kind test is necessary for keeping a directory but not shown to be sufficient (%s)' % k.origin))
+                elif of_elem(nr, b) and nr[1] == 0 and ((k.enum == 'std::ops::ControlFlow' and k.outcome == frozenset(['Continue'])) or (k.enum == 'std::result::Result' and k.outcome == frozenset(['Ok']))):
+                    pass
+                elif mentions(prog, k, KIND):
+                    probs.append(('unproven', 'a test involving determine_buildpack_kind that is not a plain variant decision on its result: %r' % k))
+                else:
+                    probs.append(('violated', 'directories are dropped by a condition that is not their buildpack kind: %r' % k))
+            if kinds is None:
+                if not any(s == 'violated' for s, _ in probs):
+                    probs.append(('unproven', 'no decision on the buildpack kind of a directory found'))
+            elif not GRAPH_KINDS <= kinds:
+                probs.append(('violated', 'directories of kind %s do not become nodes (kept kinds: %s)' % ('|'.join(sorted(GRAPH_KINDS - kinds)), '|'.join(sorted(kinds)))))
+            elif kinds != GRAPH_KINDS:
+                probs.append(('unproven', 'directories of other kinds become nodes as well: %s' % '|'.join(sorted(kinds - GRAPH_KINDS))))
+            if fr is not None:
+                if b.form == 'pipeline':
+                    if sink_short_circuits(b, 'results of node construction', probs):
+                        errors_fail(prog, sl, b.sink, 'node construction (collected results)', probs)
+                else:
+                    errors_fail(prog, sl, call_of(prog, fr[0]), 'node construction', probs)
+        if not alts:
+            probs.append(('unproven', 'no value for the node list'))
+        untouched(prog, sl, [bg, e.call.fn] + list(P.frames.values()), NODE, sites, pushes + [e.call], 'node list', probs)
+        conclude(rep, 'nodes-total' + sfx, e.where(), probs, 'every LibCnbRs / Composite directory of find_buildpack_dirs becomes a node of the graph; node errors propagate')
+
+
+def peel_refs(v):
+    while v[0] == 'updated':
+        v = v[1]
+    return v
